@@ -41,13 +41,15 @@ def _short(rec):
 def _model_check(ctx, cfg, workers, timeout):
     r = lib.tlc("MC_Norm", cfg=cfg, workers=workers, timeout=timeout, heap="6g", coverage=True)
     ctx.mc_must_pass(r, "per-bin efficiency law for every history (%s)" % cfg, "MC_Norm")
-    # vacuity guard: every action of the model must have been taken
-    for a in MC_ACTIONS:
-        if a in r.coverage and r.coverage[a][0] == 0:
-            raise lib.ModelFailure("MC_Norm (%s): action %s was never taken" % (cfg, a))
-    missing = [a for a in MC_ACTIONS if a not in r.coverage]
-    if missing and r.coverage:
-        raise lib.ModelFailure("MC_Norm (%s): no coverage reported for %s" % (cfg, missing))
+    # vacuity guard: every action of the model (each disjunct of Next: DoSetUp, DoRelated, DoRelatedSmall, DoWhole,
+    # DoSetCalib) must have been taken.  TLC attributes disjuncts under a quantifier to "Next (line col line col)".
+    acts = re.findall(r"<(\w+) line \d+, col \d+ to line \d+, col \d+ of module MC_Norm(?: \((\d+) \d+ \d+ \d+\))?>: (\d+):(\d+)", r.out)
+    taken = [(a, ln, int(d), int(g)) for (a, ln, d, g) in acts if a != "Init"]
+    if len(taken) < len(MC_ACTIONS):
+        raise lib.ModelFailure("MC_Norm (%s): coverage lists %d actions, expected %d" % (cfg, len(taken), len(MC_ACTIONS)))
+    for (a, ln, d, g) in taken:
+        if g == 0:
+            raise lib.ModelFailure("MC_Norm (%s): action %s (line %s) was never taken" % (cfg, a, ln))
 
 
 def run(ctx):
